@@ -455,7 +455,7 @@ pub fn prop() -> Prop<Case> {
     Prop {
         id: "C05",
         level: "fault_enumeration",
-        rule: "case = (history of <=8 ops with backups and interrupted backups, subset of the existing versions to delete incl. none and all, dry-run flag) generated by proptest. Fault-free run: on success the version set is exactly before minus S, every remaining complete version restores exactly, the independent scan finds referenced(kept) subset of present and present minus referenced(kept) empty, stats equal the directory diff; dry run or refusal leaves the directory byte-identical. Inner domain enumerated for successful real deletes: every mutating operation of the delete's logged trace as a crash point (storage frozen before it; quick thins to <=40), and every read/list/metadata operation x {other, not-found, permission-denied} as a single injected failure (quick <=40 ops): afterwards every remaining complete version must restore exactly. Non-trivial case = S non-empty and a block is shared between a deleted and a kept version, or a kept version is incomplete; non-trivial inner = any crash point, or a fault on an index file of a kept band; inner values distinct by construction. 30% of cases instead remove one block file before the delete (a damaged archive; optionally after a first garbage collection, optionally making the delete a pure gc): blocks present and referenced by kept versions must survive and kept versions must restore as just before. Two fixed scale probes per run: a kept version with 10 015 index hunks beside a version that is deleted; and 72 versions that each own one block, two of them deleted, the 70 kept ones restored; since round 7 the versions to delete are named in ascending, descending or rotated order, and in a fifth of the cases the tails of the complete versions carry no index_hunk_count (archives written by conserve before 0.6.4)",
+        rule: "case = (history of <=8 ops with backups and interrupted backups, subset of the existing versions to delete incl. none and all, dry-run flag) generated by proptest. Fault-free run: on success the version set is exactly before minus S, every remaining complete version restores exactly, the independent scan finds referenced(kept) subset of present and present minus referenced(kept) empty, stats equal the directory diff; dry run or refusal leaves the directory byte-identical. Inner domain enumerated for successful real deletes: every mutating operation of the delete's logged trace as a crash point (storage frozen before it; quick thins to <=40), and every read/list/metadata operation x {other, not-found, permission-denied} as a single injected failure (quick <=40 ops): afterwards every remaining complete version must restore exactly. Non-trivial case = S non-empty and a block is shared between a deleted and a kept version, or a kept version is incomplete; non-trivial inner = any crash point, or a fault on an index file of a kept band; inner values distinct by construction. 30% of cases instead remove one block file before the delete (a damaged archive; optionally after a first garbage collection, optionally making the delete a pure gc): blocks present and referenced by kept versions must survive and kept versions must restore as just before. Two fixed scale probes per run: a kept version with 10 015 index hunks beside a version that is deleted; and 72 versions that each own one block, two of them deleted, the 70 kept ones restored; since round 7 the versions to delete are named in ascending, descending or rotated order, and in a fifth of the cases the tails of the complete versions carry no index_hunk_count (archives written by conserve before 0.6.4); since round 9 the many-versions probe has 135 versions (133 kept)",
         assumptions: &[
             "remove_dir_all of a band directory is one atomic transport operation in this model",
             "zero-length block files (leftovers of a killed write) are not counted as blocks",
